@@ -72,7 +72,7 @@ def expr_task(ctx, task):
     for family, e in items:
         case = dict(kind='expr', family=family, expr=e)
         variants = [('minimal', 'default')]
-        if tier == 'thorough' or family != 'expr3':
+        if tier == 'thorough' or family not in ('expr3', 'names'):
             variants.append(('full', 'default'))
         if positions:
             variants.append(('minimal', ['uniform', '\n']))
@@ -177,7 +177,7 @@ def chunks(seq, n):
 
 
 def run_families(ctx, prop, positions):
-    exprs = F.expression_family(ctx.tier) + F.group_family() + F.names_family()
+    exprs = F.expression_family(ctx.tier) + F.group_family() + F.names_family(ctx.tier)
     k = ctx.seed % 7
     exprs = exprs[k:] + exprs[:k]
     ctx.pmap(expr_task, [(prop, positions, ctx.tier, c) for c in chunks(exprs, 400)])
